@@ -5,4 +5,4 @@ INVARIANT FirstFailingDecides
 INVARIANT ResetAcceptsAll
 CHECK_DEADLOCK FALSE
 CONSTANTS NLay = 2
- NameSet = {5}
+ NameSet = {6}
